@@ -62,12 +62,14 @@ func (s *Service) startMetricsServer() {
 
 	s.Logf("Metrics endpoint listening on %s://%s%s", s.cfg.scheme, s.cfg.metricsNetAddr, MetricsPattern)
 
+	// The goroutine serves the server it was started for. The field s.m may
+	// already be cleared by a Stop that follows right after the start.
 	go func() {
 		var err error
 		if s.cfg.TLS {
-			err = s.m.ServeTLS(hln, s.cfg.TLSCert, s.cfg.TLSKey)
+			err = metricsServer.ServeTLS(hln, s.cfg.TLSCert, s.cfg.TLSKey)
 		} else {
-			err = s.m.Serve(hln)
+			err = metricsServer.Serve(hln)
 		}
 
 		if err != nil {
